@@ -469,7 +469,10 @@ func vfTransferGoroutines() []string {
 	n := runtimeStack(buf)
 	var out []string
 	for _, g := range strings.Split(string(buf[:n]), "\n\n") {
-		if strings.Contains(g, "trzsz.(*trzszTransfer)") || strings.Contains(g, "trzsz.(*sendDataWriter)") || strings.Contains(g, "trzsz.(*recvDataReader)") {
+		// workers of a transfer: its own stages, and the goroutines the zstd streams it opened run on (those have no frame of the
+		// package itself: they end when the stream is closed)
+		if strings.Contains(g, "trzsz.(*trzszTransfer)") || strings.Contains(g, "trzsz.(*sendDataWriter)") || strings.Contains(g, "trzsz.(*recvDataReader)") ||
+			strings.Contains(g, "klauspost/compress/zstd.(*Decoder)") || strings.Contains(g, "klauspost/compress/zstd.(*Encoder)") {
 			out = append(out, g)
 		}
 	}
